@@ -2,7 +2,7 @@
    document.render, the API and histories, as Hoare triples [tok Q m] over the block monad: from a session satisfying the
    invariant [Sok], m returns a value satisfying Q and a session satisfying Sok, or raises one of [blk_exn]. *)
 From Rimu Require Import Base Unicode Regex RegexSem RegexAnalysis RegexParse Str Types Tables Guards State Inline Block MatchLemmas Placeholder
-  TaintInline NoRaise NoRaiseTop Lines MatchExact FilterLemmas.
+  TaintInline NoRaise NoRaiseTop Lines MatchExact ScanLemmas FilterLemmas.
 From Coq Require Import Lia.
 Local Open Scope monad_scope.
 
